@@ -87,7 +87,11 @@ async fn ws_echo(
             Err(e) => res = Err(e.into()),
         }
     }
-    let _ = io.shutdown().await;
+    // flags bit 3: return without shutdown(), as a handler does that simply
+    // drops the connection when it is done (on a socket that loses nothing)
+    if h.flags & 8 == 0 {
+        let _ = io.shutdown().await;
+    }
     w.log(Ev::WsExit, NOCONN, h.nonce, total, u64::from(res.is_err()));
     res
 }
